@@ -3,6 +3,7 @@
 
 use crate::gen::*;
 use crate::inst::TKey;
+use crate::e6;
 use crate::e7::*;
 use crate::interp::*;
 use crate::multi::*;
@@ -404,4 +405,131 @@ pub fn push_component_samples<T: serde::Serialize + std::fmt::Debug>(out: &mut O
     }
     samples.truncate(5);
     out.coverage.insert("samples".into(), Value::Array(samples));
+}
+
+// ------------------------------------------------------------------------------ C05
+
+fn call_strategy() -> proptest::strategy::BoxedStrategy<e6::Call> {
+    use proptest::prelude::*;
+    let size = || prop_oneof![4 => 0usize..6, 3 => 6usize..200, 1 => 200usize..5000];
+    let fl = || prop_oneof![
+        6 => (0u32..=1000).prop_map(|x| x as f64 / 1000.0),
+        2 => prop::sample::select(e6::ratios()),
+        2 => prop::sample::select(e6::fps()),
+        2 => any::<f64>(),
+        1 => (-3.0f64..3.0),
+        1 => (1e-12f64..1e-3),
+    ];
+    let ctors = vec![
+        "RawLRU::new", "RawLRU::with_hasher", "RawLRU::with_on_evict_cb", "RawLRU::with_on_evict_cb_and_hasher", "SegmentedCache::new", "SegmentedCache::builder",
+        "SegmentedCache::from_builder", "TwoQueueCache::new", "TwoQueueCache::with_recent_ratio", "TwoQueueCache::with_ghost_ratio", "TwoQueueCache::with_2q_parameters",
+        "TwoQueueCache::builder", "TwoQueueCache::from_builder", "TwoQueueCacheBuilder::new", "AdaptiveCache::new", "AdaptiveCache::builder", "AdaptiveCache::from_builder",
+        "WTinyLFUCache::new", "WTinyLFUCache::with_sizes", "WTinyLFUCache::builder", "WTinyLFUCache::from_builder", "TinyLFU::new", "TinyLFUBuilder", "SampledLFU", "From",
+    ];
+    (prop::sample::select(ctors), size(), size(), size(), prop_oneof![3 => 0usize..70, 1 => 70usize..65536], fl(), fl())
+        .prop_map(|(ctor, a, b, c, smp, f0, f1)| {
+            let sizes = match ctor {
+                "WTinyLFUCache::with_sizes" | "WTinyLFUCache::builder" | "WTinyLFUCache::from_builder" => vec![a, b, c, smp],
+                "WTinyLFUCache::new" | "TinyLFU::new" | "TinyLFUBuilder" => vec![a, smp],
+                "SampledLFU" => vec![a * 1000, smp % 100],
+                "From" => vec![a % 16, b % 4],
+                _ => vec![a, b],
+            };
+            // keep the doorkeeper small: tiny false-positive ratios only with moderate samples
+            let f0 = if smp > 4096 && f0 > 0.0 && f0 < 1e-12 { 1e-12 } else { f0 };
+            e6::Call::new(ctor, &sizes, &[f0, f1])
+        })
+        .boxed()
+}
+
+fn e6_report(c: &e6::Call) -> CaseReport {
+    let (_r, v) = e6::judge(c);
+    CaseReport { violation: v, nontrivial: e6::has_boundary(c), steps: 1, ..Default::default() }
+}
+
+pub fn check_c05(ctx: &Ctx, out: &mut Outcome) {
+    // (a) the complete grid
+    let grid = e6::grid();
+    let n = grid.len();
+    let workers = ctx.workers.max(1);
+    let chunks: Vec<Vec<(usize, e6::Call)>> = (0..workers).map(|w| grid.iter().cloned().enumerate().filter(|(i, _)| i % workers == w).collect()).collect();
+    let results: Vec<(u64, u64, std::collections::BTreeMap<String, u64>, Option<(usize, e6::Call, Violation)>)> = std::thread::scope(|sc| {
+        let hs: Vec<_> = chunks
+            .iter()
+            .map(|chunk| {
+                sc.spawn(move || {
+                    crate::inst::thread_init();
+                    let mut nt = 0u64;
+                    let mut ev = 0u64;
+                    let mut outcomes: std::collections::BTreeMap<String, u64> = Default::default();
+                    let mut first: Option<(usize, e6::Call, Violation)> = None;
+                    for (i, c) in chunk {
+                        let (r, v) = e6::judge(c);
+                        ev += 1;
+                        if e6::has_boundary(c) {
+                            nt += 1;
+                        }
+                        let key = match &r {
+                            e6::Res::Ok => "ok".to_string(),
+                            e6::Res::Err(e) => format!("err:{}", e),
+                            e6::Res::Panic(..) => "panic".to_string(),
+                        };
+                        *outcomes.entry(key).or_default() += 1;
+                        if let Some(v) = v {
+                            if first.is_none() {
+                                first = Some((*i, c.clone(), v));
+                            }
+                        }
+                    }
+                    (ev, nt, outcomes, first)
+                })
+            })
+            .collect();
+        hs.into_iter().map(|h| h.join().expect("grid worker died")).collect()
+    });
+    let mut outcomes: std::collections::BTreeMap<String, u64> = Default::default();
+    let (mut ev, mut nt) = (0u64, 0u64);
+    let mut first: Option<(usize, e6::Call, Violation)> = None;
+    for (e, t, o, f) in results {
+        ev += e;
+        nt += t;
+        for (k, v) in o {
+            *outcomes.entry(k).or_default() += v;
+        }
+        if let Some(f) = f {
+            if first.as_ref().map(|x| f.0 < x.0).unwrap_or(true) {
+                first = Some(f);
+            }
+        }
+    }
+    out.coverage.insert("grid_tuples".into(), json!(n));
+    out.coverage.insert("grid_exhaustive".into(), json!(true));
+    out.coverage.insert("grid_outcomes".into(), json!(outcomes));
+    out.coverage.insert("evaluations".into(), json!(ev));
+    out.coverage.insert("distinct_nontrivial".into(), json!(nt));
+    out.coverage.insert(
+        "rule".into(),
+        json!("(a) complete cartesian grid of boundary arguments for every constructor / builder / from_builder / with_* / conversion (non-trivial = the tuple contains a boundary value: 0, 1, 4096, NaN, +-inf, <= 0, >= 1-eps, denormal; every grid tuple is distinct); (b) proptest-drawn argument tuples; (c) generated operation sequences (E1 over all cache kinds incl. resize to any value in 0..=2cap+1, E7 over TinyLFU and SampledLFU with extreme raw hashes) - non-trivial = the cache reached full and used >= 8 different operations; all in the std and in the no_std (hashbrown+libm) build with overflow checks on"),
+    );
+    let s0: Vec<Value> = grid.iter().step_by((n / 3).max(1)).take(3).map(|c| json!(c.describe())).collect();
+    out.coverage.insert("samples".into(), Value::Array(s0));
+    if let Some((_, call, v)) = first {
+        if ctx.known.matches(&ctx.id, &v.sig).is_none() {
+            let path = write_replay(&ctx.replay_dir(), &ctx.id, "e6", serde_json::to_value(&call).unwrap(), &v);
+            out.violations.push((path, v.msg));
+        }
+    }
+    // (b) drawn tuples
+    let (acc, found) = run_engine(&call_strategy, &e6_report, &|c: &e6::Call| {
+        let mut d = Case { kind: Kind::Lru, cfg: Cfg::simple(1), keys: KeyMode::Tracked, alphabet: 0, ops: vec![] };
+        d.cfg.sketch_seed = Some(fnv64(serde_json::to_string(c).unwrap_or_default().as_bytes()));
+        d
+    }, &ctx.id, ctx.seed, 0xe6, ctx.workers, ctx.cases(600, 20000), &ctx.known);
+    let mut acc = acc;
+    acc.samples.clear();
+    finish(ctx, "", acc, found, out, "e6", &e6_report, &|c, _f| c.clone());
+    // (c) operation sequences
+    check_e1(ctx, Prop::C05, out, 1500, 40000);
+    check_tinylfu(ctx, E7Prop::C05, out, 800, 20000, "");
+    check_sampled(ctx, E7Prop::C05, out, 800, 20000, "");
 }
